@@ -126,9 +126,10 @@ class Acc:
     ent = self.viol.setdefault(sig, [0, []])
     ent[0] += 1
     if len(ent[1]) < MAX_VIOL_PER_SIG:
+      enc = jenc(case)
       ent[1].append({
-        "clause": clause, "disc": str(disc), "family": family, "index": index, "case": jenc(case),
-        "observed": jenc(observed), "expected": jenc(expected), "note": note})
+        "clause": clause, "disc": str(disc), "family": family, "index": index, "case": enc,
+        "observed": jenc(observed), "expected": jenc(expected), "note": note, "_sz": len(repr(enc))})
 
   def merge(self, other: "Acc"):
     self.evaluations += other.evaluations
@@ -139,9 +140,10 @@ class Acc:
     for sig, (n, recs) in other.viol.items():
       ent = self.viol.setdefault(sig, [0, []])
       ent[0] += n
+      if len(ent[1]) >= MAX_VIOL_PER_SIG and n > 0 and ent[0] > 50:
+        continue      # enough witnesses kept for a signature that fires massively; avoid quadratic bookkeeping
       ent[1].extend(recs)
-      ent[1].sort(key=lambda r: (r["family"] or "", r["index"] if r["index"] is not None else 1 << 62,
-                                 len(json.dumps(r["case"]))))
+      ent[1].sort(key=lambda r: (r["family"] or "", r["index"] if r["index"] is not None else 1 << 62, r.get("_sz", 0)))
       del ent[1][MAX_VIOL_PER_SIG:]
     for s in other.samples:
       if len(self.samples) < MAX_SAMPLES * 3:
